@@ -28,6 +28,10 @@ pub enum When {
     /// one millisecond after the newest entry
     AfterNewest,
     Future,
+    /// while the attacker held its former role (roles 1 and 2), else like Now
+    WhileEntitled,
+    /// one millisecond after the attacker lost its former role
+    AfterRemoval,
 }
 
 #[derive(Clone, Debug, Serialize, Deserialize, PartialEq)]
@@ -41,7 +45,16 @@ pub enum Edit {
     /// an honest entry node of this room placed in another list / group of this room
     ReplayWithinRoom { from: Place, idx: u8, into: Place, when: When },
     /// entry node and reference both signed by the attacker
-    Forge { into: Place, attacker_key: bool, enabled: bool, right: RightSpec, when: When },
+    Forge {
+        into: Place,
+        attacker_key: bool,
+        enabled: bool,
+        right: RightSpec,
+        when: When,
+        /// creation date of the forged row when it differs from its date
+        #[serde(default)]
+        created: Option<When>,
+    },
     /// an existing entry changed; re-signed by the attacker or left with its old signature
     Alter { place: Place, idx: u8, resign: bool },
     /// a whole new group signed by the attacker, granting itself everything
@@ -72,13 +85,17 @@ pub struct Case {
     /// the shape of the known finding (replay behind a foreign reference) is excluded by construction
     #[serde(default)]
     pub no_replay: bool,
+    /// 0: the attacker is a plain user of group 0; 1: it WAS an admin of the room (enabled, later
+    /// disabled); 2: it WAS a user admin of group 0
+    #[serde(default)]
+    pub attacker_role: u8,
 }
 
 fn place_strategy() -> impl Strategy<Value = Place> {
-    prop_oneof![Just(Place::Admin), (0u8..2).prop_map(Place::User), (0u8..2).prop_map(Place::UserAdmin), (0u8..2).prop_map(Place::Right)]
+    prop_oneof![3 => Just(Place::Admin), 2 => (0u8..2).prop_map(Place::User), 2 => (0u8..2).prop_map(Place::UserAdmin), 2 => (0u8..2).prop_map(Place::Right)]
 }
 fn when_strategy() -> impl Strategy<Value = When> {
-    prop_oneof![3 => Just(When::Now), 2 => Just(When::Oldest), 1 => Just(When::AfterNewest), 1 => Just(When::Future)]
+    prop_oneof![3 => Just(When::Now), 2 => Just(When::Oldest), 1 => Just(When::AfterNewest), 1 => Just(When::Future), 2 => Just(When::WhileEntitled), 1 => Just(When::AfterRemoval)]
 }
 
 fn strategy(max_edits: usize) -> BoxedStrategy<Case> {
@@ -97,8 +114,8 @@ fn strategy(max_edits: usize) -> BoxedStrategy<Case> {
         1 => (place_strategy(), 0u8..4).prop_map(|(place, idx)| Edit::Duplicate { place, idx }),
         4 => (place_strategy(), 0u8..4, place_strategy(), when_strategy()).prop_map(|(from, idx, into, when)| Edit::ReplayFromOtherRoom { from, idx, into, when }),
         3 => (place_strategy(), 0u8..4, place_strategy(), when_strategy()).prop_map(|(from, idx, into, when)| Edit::ReplayWithinRoom { from, idx, into, when }),
-        4 => (place_strategy(), any::<bool>(), any::<bool>(), right_strategy(), when_strategy())
-            .prop_map(|(into, attacker_key, enabled, right, when)| Edit::Forge { into, attacker_key, enabled, right, when }),
+        8 => (place_strategy(), any::<bool>(), any::<bool>(), right_strategy(), prop_oneof![2 => when_strategy(), 1 => Just(When::AfterRemoval)], proptest::option::weighted(0.5, prop_oneof![1 => when_strategy(), 2 => Just(When::WhileEntitled)]))
+            .prop_map(|(into, attacker_key, enabled, right, when, created)| Edit::Forge { into, attacker_key, enabled, right, when, created }),
         2 => (place_strategy(), 0u8..4, any::<bool>()).prop_map(|(place, idx, resign)| Edit::Alter { place, idx, resign }),
         1 => when_strategy().prop_map(|when| Edit::ForgeGroup { when }),
     ];
@@ -111,8 +128,9 @@ fn strategy(max_edits: usize) -> BoxedStrategy<Case> {
         any::<bool>(),
         proptest::collection::vec(edit, 0..max_edits),
         prop_oneof![3 => Just(true), 2 => Just(false)],
+        prop_oneof![2 => Just(0u8), 2 => Just(1u8), 1 => Just(2u8)],
     )
-        .prop_map(|(groups, other_groups, before, after, fresh_victim, base_old, edits, no_replay)| Case { groups, other_groups, before, after, fresh_victim, base_old, edits, no_replay })
+        .prop_map(|(groups, other_groups, before, after, fresh_victim, base_old, edits, no_replay, attacker_role)| Case { groups, other_groups, before, after, fresh_victim, base_old, edits, no_replay, attacker_role })
         .boxed()
 }
 
@@ -221,10 +239,13 @@ fn right_json(entity: &str, own: bool, all: bool) -> String {
     serde_json::json!({"32": entity, "33": own, "34": all}).to_string()
 }
 fn forged_node(entity_short: &str, json: String, date: i64, signer: &Ed25519SigningKey) -> Node {
+    forged_node_created(entity_short, json, date, date, signer)
+}
+fn forged_node_created(entity_short: &str, json: String, date: i64, cdate: i64, signer: &Ed25519SigningKey) -> Node {
     let mut n = Node {
         id: new_uid(),
         room_id: None,
-        cdate: date,
+        cdate,
         mdate: date,
         _entity: entity_short.to_string(),
         _json: Some(json),
@@ -388,6 +409,24 @@ impl Property for C07 {
                 p.add("k", x64.clone()).unwrap();
                 let _ = a.mutate("mutate { sys.Room { id:$room authorisations:[{ id:$g users:[{verif_key:$k}] }] } }", Some(p)).await;
             }
+            // former roles of the attacker: granted now, withdrawn after the first part of the honest history
+            let mut t_granted = 0;
+            let mut t_removed = 0;
+            if case.attacker_role % 3 != 0 {
+                Clock::advance(1);
+                t_granted = Clock::get();
+                let mut p = Parameters::new();
+                p.add("room", room64.clone()).unwrap();
+                p.add("g", gids[0].clone()).unwrap();
+                p.add("k", x64.clone()).unwrap();
+                let q = if case.attacker_role % 3 == 1 {
+                    "mutate { sys.Room { id:$room admin:[{verif_key:$k}] } }"
+                } else {
+                    "mutate { sys.Room { id:$room authorisations:[{ id:$g user_admin:[{verif_key:$k}] }] } }"
+                };
+                let _ = a.mutate(q, Some(p)).await;
+                Clock::advance(5000);
+            }
             // another room of the same admin, in which the attacker IS an admin: a source of validly
             // signed rows for replay
             let (other, _other64, _ogids) = match create_room(&a, &keys, &case.other_groups, Some(&x64)).await {
@@ -398,6 +437,21 @@ impl Property for C07 {
                 }
             };
             honest_ops(&a, &room64, &gids, &keys, &case.before).await;
+            if case.attacker_role % 3 != 0 {
+                Clock::advance(5000);
+                t_removed = Clock::get();
+                let mut p = Parameters::new();
+                p.add("room", room64.clone()).unwrap();
+                p.add("g", gids[0].clone()).unwrap();
+                p.add("k", x64.clone()).unwrap();
+                let q = if case.attacker_role % 3 == 1 {
+                    "mutate { sys.Room { id:$room admin:[{verif_key:$k enabled:false}] } }"
+                } else {
+                    "mutate { sys.Room { id:$room authorisations:[{ id:$g user_admin:[{verif_key:$k enabled:false}] }] } }"
+                };
+                let _ = a.mutate(q, Some(p)).await;
+                Clock::advance(5000);
+            }
             let as_admin = PullOptions { as_key: Some(a.verifying_key.clone()), only_rooms: Some(vec![room]), ..Default::default() };
             let export_old = a.db.get_room_node(room).await.ok().flatten();
             if !case.fresh_victim {
@@ -429,6 +483,8 @@ impl Property for C07 {
                 When::Oldest => *dates.first().unwrap_or(&now),
                 When::AfterNewest => dates.last().map(|d| d + 1).unwrap_or(now),
                 When::Future => now + 30 * DAY,
+                When::WhileEntitled => if t_granted > 0 { t_granted + 1000 } else { now },
+                When::AfterRemoval => if t_removed > 0 { t_removed + 1 } else { now },
             };
             let mut dishonest = false;
             for e in &case.edits {
@@ -500,12 +556,13 @@ impl Property for C07 {
                         dishonest = true;
                         insert_entry(&mut cand, *into, n, date_of(*when), &attacker);
                     }
-                    Edit::Forge { into, attacker_key, enabled, right, when } => {
+                    Edit::Forge { into, attacker_key, enabled, right, when, created } => {
                         let d = date_of(*when);
+                        let cd = created.map(|c| date_of(c)).unwrap_or(d);
                         let node = if is_user_place(*into) {
-                            forged_node("0.2", user_json(if *attacker_key { &x64 } else { &keys[1] }, *enabled), d, &attacker)
+                            forged_node_created("0.2", user_json(if *attacker_key { &x64 } else { &keys[1] }, *enabled), d, cd, &attacker)
                         } else {
-                            forged_node("0.3", right_json(entity_sel(right.entity), right.own, right.all), d, &attacker)
+                            forged_node_created("0.3", right_json(entity_sel(right.entity), right.own, right.all), d, cd, &attacker)
                         };
                         dishonest = true;
                         insert_entry(&mut cand, *into, node, d, &attacker);
@@ -587,7 +644,7 @@ impl Property for C07 {
                 }
                 v
             };
-            let verdict = match victim.sigs.verify_room_node(cand).await {
+            let verdict = match victim.sigs.verify_room_node(cand.clone()).await {
                 Ok(c) => victim.db.add_room_node(c).await.map_err(|e| e.to_string()),
                 Err(e) => Err(format!("signature: {}", e)),
             };
@@ -604,6 +661,63 @@ impl Property for C07 {
                 o.violation(format!("existing-entry-lost-or-altered:{}", place), what);
             }
             // (ii) whatever was added is an honest entry of that place
+            // entries the attacker authored while it was entitled (its former role, at the entry's date) are
+            // legitimate additions: they are added to the set of entitled entries before the comparison
+            let mut entitled = honest.clone();
+            {
+                let xk = attacker.export_verifying_key();
+                let entry_of = |n: &Node| -> Option<(String, bool, String, bool, bool)> {
+                    let v: serde_json::Value = serde_json::from_str(n._json.as_deref()?).ok()?;
+                    if n._entity == "0.2" {
+                        Some((v["32"].as_str()?.to_string(), v["33"].as_bool().unwrap_or(true), String::new(), false, false))
+                    } else {
+                        Some((String::new(), false, v["32"].as_str()?.to_string(), v["33"].as_bool()?, v["34"].as_bool()?))
+                    }
+                };
+                for n in cand.admin_nodes.iter().map(|u| &u.node) {
+                    if n.verifying_key == xk && honest.is_admin(&x64, n.mdate) {
+                        if let Some((k, en, ..)) = entry_of(n) {
+                            entitled.admins.entry(k).or_default().push(UserEntry { date: n.mdate, enabled: en });
+                        }
+                    }
+                }
+                for an in &cand.auth_nodes {
+                    let gid = b64(&an.node.id);
+                    let admin_at = |d: i64| honest.is_admin(&x64, d);
+                    let uadmin_at = |d: i64| honest.groups.get(&gid).map(|g| g.is_user_admin(&x64, d)).unwrap_or(false);
+                    if !entitled.groups.contains_key(&gid) {
+                        // a whole group authored by the attacker while it was an admin is an entitled addition
+                        if an.node.verifying_key == xk && admin_at(an.node.mdate) {
+                            entitled.groups.insert(gid.clone(), GroupModel::default());
+                        } else {
+                            continue;
+                        }
+                    }
+                    for n in an.user_nodes.iter().map(|u| &u.node) {
+                        if n.verifying_key == xk && (admin_at(n.mdate) || uadmin_at(n.mdate)) {
+                            if let Some((k, en, ..)) = entry_of(n) {
+                                entitled.groups.get_mut(&gid).unwrap().users.entry(k).or_default().push(UserEntry { date: n.mdate, enabled: en });
+                            }
+                        }
+                    }
+                    for n in an.user_admin_nodes.iter().map(|u| &u.node) {
+                        if n.verifying_key == xk && admin_at(n.mdate) {
+                            if let Some((k, en, ..)) = entry_of(n) {
+                                entitled.groups.get_mut(&gid).unwrap().user_admins.entry(k).or_default().push(UserEntry { date: n.mdate, enabled: en });
+                            }
+                        }
+                    }
+                    for n in an.right_nodes.iter().map(|u| &u.node) {
+                        if n.verifying_key == xk && admin_at(n.mdate) {
+                            if let Some((_, _, ent, own, all)) = entry_of(n) {
+                                entitled.groups.get_mut(&gid).unwrap().rights.entry(ent).or_default().push(RightEntry { date: n.mdate, own: own || all, all });
+                            }
+                        }
+                    }
+                }
+            }
+            let honest_only = honest.clone();
+            let honest = entitled;
             if let Some((place, what)) = not_included(&after, &honest) {
                 // which part of the candidate brought it? find the candidate row with that date and content
                 let date: i64 = what
@@ -662,12 +776,16 @@ impl Property for C07 {
             let st = pull(&victim, &a, &as_admin).await;
             let end = victim.room(room).await.map(|r| RoomModel::from_room(&r)).unwrap_or_default();
             let omission = case.edits.iter().any(|e| matches!(e, Edit::Omit { .. } | Edit::OmitGroup { .. }));
-            if st.sync_errors.is_empty() {
+            if case.attacker_role % 3 != 0 {
+                // a formerly entitled attacker can legitimately have authored rows that conflict with the
+                // honest ones (same row id, its own signature): what happens then is not part of this property
+                o.label("former-role-attacker");
+            } else if st.sync_errors.is_empty() {
                 if omission {
                     // a truncated definition carrying the newest date is not repaired before the next change
                     // of the room: not part of this property (nothing unentitled was added)
                     o.label("truncated-candidate");
-                } else if let Some((place, what)) = not_included(&honest, &end) {
+                } else if let Some((place, what)) = not_included(&honest_only, &end) {
                     o.violation(format!("honest-entry-missing-after-honest-update:{}", place), what);
                 }
             } else if not_included(&after, &honest).is_none() {
